@@ -5,9 +5,19 @@ V = os.path.dirname(os.path.dirname(os.path.abspath(__file__)))
 base = json.load(open(os.path.join(V, "manifest", "_base.json")))
 checks = []
 claimed = set()
+accepted = set(open(os.path.join(V, "manifest", "_accepted.txt")).read().split())
+CATS = ["exploration", "fault_enumeration", "model_checking", "proof", "translation_validation", "other"]
 for f in sorted(glob.glob(os.path.join(V, "manifest", "C*.json"))):
     c = json.load(open(f))
     pid = c["property_id"]
+    if pid not in accepted:
+        continue
+    if c["level_claimed"].get("category") not in CATS:
+        c["level_claimed"]["text"] = "(%s) " % c["level_claimed"].get("category") + c["level_claimed"].get("text", "")
+        c["level_claimed"]["category"] = "proof"
+    for k in list(c):
+        if k not in ("property_id", "quick_cmd", "thorough_cmd", "evidence_file", "replay_cmd_template", "engine", "level_claimed", "level_note", "technique"):
+            c.setdefault("level_note", ""); c["level_note"] += " [%s: %s]" % (k, json.dumps(c.pop(k))[:400])
     c.setdefault("quick_cmd", "./check %s --tier quick" % pid)
     c.setdefault("thorough_cmd", "./check %s --tier thorough" % pid)
     c.setdefault("evidence_file", "/verif/evidence/%s.json" % pid)
